@@ -238,7 +238,7 @@ def run(tier, only=None):
     except T.Unsupported as e:
         rep.harness_error("Engine C cannot encode the current source: %s" % e)
     q = tier == "quick"
-    Tm = 60 if q else 300
+    Tm = 100 if q else 400
     conds = [runner.Cond(HF, "h_choice", Tm, key="choice"), runner.Cond(HF, "h_choice_empty", Tm, key="choice"),
              runner.Cond(HF, "h_shuffle_injective", 2 * Tm, env={"VERIF_N": "3" if q else "4"}, key="shuffle"),
              runner.Cond(HF, "h_shuffle_draws", Tm, env={"VERIF_N": "4"}, key="shuffle"),
